@@ -1,11 +1,15 @@
 import AlgoVerif.Model.C14
 import AlgoVerif.Model.C14W
 import AlgoVerif.Model.C14S
+import AlgoVerif.Model.C14R
 import AlgoVerif.Spec.C14
 /-!
-Line-protocol component for C14.  A case is a history on graph objects (`Model/C14S.lean`, `World`):
+Line-protocol component for C14.  A case is a history on graph objects (`Model/C14S.lean`, `World`) and on the
+result objects the client keeps (`Model/C14R.lean`, `Session`):
 
-    graph directed|undirected|wdirected|wundirected <n>     object 0, current
+    graph directed|undirected|wdirected|wundirected <n> [<u> <v> [<w>]]…
+                                  object 0, current: `NewX(n, edges…)` with the edges listed (weighted kinds: three
+                                  numbers per edge)
     edge <u> <v> [<w>]            `AddEdge` on the current object
     paths dfs|dfsi|bfs <s>        all `To(v)`, v = 0 … n-1
     path  dfs|dfsi|bfs <s> <v>    one `To(v)`
@@ -17,7 +21,14 @@ Line-protocol component for C14.  A case is a history on graph objects (`Model/C
     traverse dfs|dfsi|bfs <s> all|<k>   `Traverse` with visitors that log every callback; callback number k
                                   (from 0) answers `false`
     mkrev                         `Reverse()` of the current object is kept as a further object (answer: its index)
+    new <n> [<u> <v> [<w>]]…      `NewX(n, edges…)` of the same kind: a further, unrelated object (answer: its index)
     use <i>                       object `i` becomes the current one
+    keep paths <strat> <s> | orders <strat> | cc | scc | cycle | topo | mst | spt <s> | adjof <v>
+                                  the call is made on the current object and the result OBJECT (`*Paths`, `*Orders`, …,
+                                  the slice `Adj(v)`) is kept; answer: its number `res=<k>` (0, 1, … in the order of the
+                                  `keep` lines of the case)
+    ask <k>                       everything result `k` can be asked (the line the query itself prints)
+    ask <k> <v>                   `To(v)` / `PathTo(v)` of result `k` (a `*Paths` or `*ShortestPathTree`)
 
 `edge` lines and queries interleave freely: every query is answered on the object as it is at that point (the
 harness keeps the Go objects alive for the whole case, so caches that `AddEdge` fails to invalidate and
@@ -111,6 +122,20 @@ def parseQuery (k : Kind) (f : List String) : Option Query :=
     | _ => none
   q.bind fun q => if q.applies k then some q else none
 
+/-- the edge list of a `graph` line: two numbers per edge, three for the weighted kinds -/
+def parseEdges (k : Kind) : List String → Option (List EdgeIn)
+  | [] => some []
+  | u :: v :: rest =>
+    if k.isWeighted then
+      match rest with
+      | w :: rest' =>
+        (parseInt? u).bind fun u => (parseInt? v).bind fun v => (parseInt? w).bind fun w =>
+          (parseEdges k rest').map (⟨u, v, w⟩ :: ·)
+      | [] => none
+    else
+      (parseInt? u).bind fun u => (parseInt? v).bind fun v => (parseEdges k rest).map (⟨u, v, 0⟩ :: ·)
+  | [_] => none
+
 def parseOp (k : Kind) (f : List String) : Option Op :=
   match f with
   | ["edge", u, v] =>
@@ -120,6 +145,7 @@ def parseOp (k : Kind) (f : List String) : Option Op :=
     if !k.isWeighted then none
     else (parseInt? u).bind fun u => (parseInt? v).bind fun v => (parseInt? w).map fun w => .edge u v w
   | ["mkrev"] => if k.isDirected then some .mkrev else none
+  | "new" :: n :: rest => (parseNat? n).bind fun n => (parseEdges k rest).map fun es => .mknew n es
   | ["use", i] => (parseNat? i).map .use
   | _ => (parseQuery k f).map .query
 
@@ -183,25 +209,67 @@ def runOp (w : World) (f : List String) : String × Bool × World :=
         let r := w.step op
         let (l, dead) := outcomeLine (r.2.bind (showAnswer w.obj q))
         (l, dead, r.1)
-    | .mkrev =>
+    | .mkrev | .mknew .. =>
       let r := w.step op
       (s!"ok obj={w.objs.size}", false, r.1)
     | .use i => if i < w.objs.size then ("ok", false, (w.step op).1) else ("bad-op", false, w)
     | .edge .. => ("ok", false, (w.step op).1)
 
+/-- `keep`, `ask` and everything `runOp` knows -/
+def runROp (s : Session) (f : List String) : String × Bool × Session :=
+  let kind := s.w.obj.kind
+  match f with
+  | "keep" :: rest =>
+    match parseQuery kind rest with
+    | none => ("bad-op", false, s)
+    | some q =>
+      if !q.keepable then ("bad-op", false, s)
+      else if (match q with | .spt _ => true | _ => false) && hasNeg s.w.obj.g then
+        ("ok unsupported-negative-weight", false, (s.step .hole).1)
+      else
+        let r := s.step (.keep q)
+        match r.2 with
+        | .ok _ => (s!"ok res={s.kept.size}", false, r.1)
+        | .panic => ("panic", true, r.1)
+        | .diverge => ("hang", true, r.1)
+  | "ask" :: i :: rest =>
+    let sel : Option (Option Int) :=
+      match rest with
+      | [] => some none
+      | [v] => (parseInt? v).map some
+      | _ => none
+    match (parseNat? i).bind (s.kept[·]?), sel with
+    | some k, some sel =>
+      match k.r with
+      | .none => ("ok unsupported-negative-weight", false, s)
+      | _ =>
+        if sel.isSome && !(match k.q with | .paths .. | .spt _ => true | _ => false) then ("bad-op", false, s)
+        else
+          let i := (parseNat? i).getD 0
+          let r := s.step (.ask i sel)
+          let (l, dead) := outcomeLine (r.2.bind (showAnswer k.o (k.q.at sel)))
+          (l, dead, r.1)
+    | _, _ => ("bad-op", false, s)
+  | _ =>
+    let (l, d, w') := runOp s.w f
+    (l, d, { s with w := w' })
+
 def runCase (_hdr : List String) (ops : List String) : List String := Id.run do
-  let mut st : Option World := none
+  let mut st : Option Session := none
   let mut dead := false
   let mut out : Array String := #[]
   for line in ops do
     if dead then out := out.push "skip"; continue
     match words line, st with
-    | ["graph", kind, n], none =>
+    | "graph" :: kind :: n :: rest, none =>
       match parseKind kind, parseNat? n with
-      | some k, some n => st := some (World.init k n); out := out.push "ok"
+      | some k, some n =>
+        match parseEdges k rest with
+        | some es => st := some (Session.init k n es); out := out.push "ok"
+        | none => out := out.push "bad-op"
       | _, _ => out := out.push "bad-op"
     | f, some s =>
-      let (l, d, s') := runOp s f
+      let (l, d, s') := runROp s f
       st := some s'
       dead := d
       out := out.push l
